@@ -24,7 +24,7 @@ ERROR_PATHS = [
     "_flatten: all sequences empty -> empty float array (no second hstack) : sequence_numerical/allempty -> *:sequence_numerical:default, *:raises",
     "_flatten: np.hstack dtype follows the cells (int64 for lists of Python ints) : sequence_numerical bigint -> *:mean (sum wrap), *:std",
     "MEAN / STD / QUANTILES: isfinite mask; `not mask.any()` -> NaN : NaN / inf inside sequences, onlyinf / allnan / allmissing columns, +/-inf in every float backing -> *:default, *:mean, *:std, *:quantiles",
-    "MEAN: np.mean accumulates in float64 also for integer data : int64 around 2^62 (sum beyond 2^63), int32, uint8 -> *:mean",
+    "MEAN: np.mean accumulates in float64 also for integer data : int64 around 2^62 (sum beyond 2^63), int32, uint8 -> *:mean, Coq int_mean_ok (theorems int64_accumulation_*)",
     "STD: population (ddof 0), no snapping : scales 2^-40 .. 2^40 and 1 + k 2^-30, constant columns -> *:std",
     "QUANTILES: q list and linear method : every numerical column, ties, even / odd n, single value -> *:quantiles",
     "COUNT / MULTI_COUNT: value_counts(ascending=False) on the dropna'd series; split_by_sep -> set -> explode -> dropna : ties, duplicated tokens, blank / missing cells -> *:count, *:order, *:extra, *:missing, *:dup",
@@ -1273,6 +1273,11 @@ def coq_col(case, obs, col, extra):
         if set(st) != {"MEAN", "STD", "QUANTILES"} or not isinstance(st["QUANTILES"], list):
             return None
         o = f"ONum {cdbl(st['MEAN'])} {cdbl(st['STD'])} {C.clist(st['QUANTILES'], cdbl)}"
+        if col.get("bigint"):
+            # integer-backed data beyond 2^53: the implementation's MEAN is the exact mean of the integers (numpy
+            # accumulates in float64), and NOT the int64-wrapped one when the total leaves the int64 range
+            flat_i = col["cells"] if s == "numerical" else [x for cell in col["cells"] if cell is not None for x in cell]
+            extra.append(f"int_mean_ok {C.clist([int(x) for x in flat_i], C.cz)} {cdbl(st['MEAN'])}")
         if col_eps(col):
             # reduced-precision backing / int64 beyond 2^53: only which statistics are NaN is compared in Coq
             flat = col["cells"] if s == "numerical" else [x for cell in col["cells"] if cell is not None for x in cell]
